@@ -87,11 +87,12 @@ def store_attr_h5data(obj: Any, group: Group) -> None:
         elif isinstance(value, bytes):
             value = value.decode()
         elif isinstance(value, Mapping) and not isinstance(value, DesignSpace):
-            grname = f"/{name}"
-            if grname in group:
-                del group[grname]
-            new_group = group.require_group(grname)
-            store_attr_h5data(value, new_group)
+            # Store the mapping beside the group of the object,
+            # i.e. under the same HDF node and not at the root of the file.
+            parent_group = group.parent
+            if name in parent_group:
+                del parent_group[name]
+            store_attr_h5data(value, parent_group.require_group(name))
             continue
         elif hasattr(value, "__iter__") and not (
             isinstance(value, ndarray) and issubdtype(value.dtype, number)
